@@ -2,6 +2,7 @@ package lucene
 
 import (
 	"fmt"
+	"math"
 	"reflect"
 	"strconv"
 	"strings"
@@ -239,7 +240,7 @@ func parseLiteral(token lex.Token) (e any, err error) {
 
 	// attempt to parse it as a float
 	fval, err := strconv.ParseFloat(token.Val, 64)
-	if err == nil {
+	if err == nil && !math.IsInf(fval, 0) && !math.IsNaN(fval) {
 		return expr.Lit(fval), nil
 	}
 
